@@ -75,7 +75,7 @@ func damageRichPlan(t *rapid.T, op *Op) string {
 		_ = json.Unmarshal(b, &m)
 		return m
 	}
-	k := uni(t, 18, "plan.damage")
+	k := uni(t, 21, "plan.damage")
 	switch k {
 	case 0:
 		if n >= 2 {
@@ -174,6 +174,21 @@ func damageRichPlan(t *rapid.T, op *Op) string {
 		s := string(b) + " trailing"
 		op.Raw = &s
 		return "trailing garbage"
+	case 17:
+		b, _ := json.Marshal(d)
+		s := string(b) + oneOf(t, []string{"}", "\n]", " ] ", "}}", "\n}\n"}, "closer")
+		op.Raw = &s
+		return "trailing closing bracket"
+	case 18:
+		b, _ := json.Marshal(d)
+		s := string(b) + " ] " + string(b)
+		op.Raw = &s
+		return "second value after a stray bracket"
+	case 19:
+		b, _ := json.Marshal(d)
+		s := string(b) + oneOf(t, []string{" 0", " null", " \"x\"", " []"}, "scalar")
+		op.Raw = &s
+		return "trailing scalar value"
 	default:
 		b, _ := json.Marshal(d)
 		s := string(b[:len(b)-1-uni(t, len(b)/2, "trunc")])
